@@ -63,6 +63,10 @@ pub struct Case {
     /// the control service keeps the Stop notification open until the end: later initiators act while it is being handled
     #[serde(default)]
     pub hold_stop: bool,
+    /// server role: the handshake service writes this Session Expiry Interval into the CONNACK (the rule about the
+    /// peer's DISCONNECT stays tied to the value in CONNECT)
+    #[serde(default)]
+    pub connack_expiry: Option<u32>,
 }
 
 fn fail(c: &Case, rule: &str, detail: String) -> Failure {
@@ -178,6 +182,9 @@ pub async fn run_case(c: Case) -> Result<CaseInfo, Failure> {
     cfg.v5.no_retain = true;
     cfg.v5.no_sub_ids = true;
     cfg.v5.connect.session_expiry = c.connect_expiry.then_some(60);
+    if c.role == Role::V5Server && c.connack_expiry.is_some() {
+        cfg.v5.hs_with = Some(crate::bed::v5::Override5 { session_expiry: c.connack_expiry, ..Default::default() });
+    }
     cfg.v5.connect.receive_max = Some(8);
     if c.role == Role::V5Client {
         // the client's own limits travel in its CONNECT
@@ -331,7 +338,12 @@ fn all_cases(thorough: bool) -> Vec<Case> {
             for stop in stops {
                 for connect_expiry in [false, true] {
                     for hold_stop in [false, true] {
-                        out.push(Case { role, inits: vec![*a], seps: vec![2], stop, connect_expiry, hold_stop });
+                        out.push(Case { role, inits: vec![*a], seps: vec![2], stop, connect_expiry, hold_stop, connack_expiry: None });
+                        if role == Role::V5Server && matches!(a, Init::PeerDisconnect(_) | Init::PeerDisconnectHeld) {
+                            for ce in [0u32, 30] {
+                                out.push(Case { role, inits: vec![*a], seps: vec![2], stop, connect_expiry, hold_stop, connack_expiry: Some(ce) });
+                            }
+                        }
                     }
                 }
             }
@@ -342,7 +354,7 @@ fn all_cases(thorough: bool) -> Vec<Case> {
                 for sep in 0..3u8 {
                     for stop in stops {
                         for hold_stop in [false, true] {
-                            out.push(Case { role, inits: vec![*a, *b], seps: vec![sep, 2], stop, connect_expiry: false, hold_stop });
+                            out.push(Case { role, inits: vec![*a, *b], seps: vec![sep, 2], stop, connect_expiry: false, hold_stop, connack_expiry: None });
                         }
                     }
                 }
@@ -353,7 +365,7 @@ fn all_cases(thorough: bool) -> Vec<Case> {
                 for b in &inits {
                     for d in &inits {
                         for seps in [[0u8, 0], [0, 2], [2, 0], [1, 1], [2, 2]] {
-                            out.push(Case { role, inits: vec![*a, *b, *d], seps: vec![seps[0], seps[1], 2], stop: StopAnswer::None, connect_expiry: false, hold_stop: seps[0] == 2 });
+                            out.push(Case { role, inits: vec![*a, *b, *d], seps: vec![seps[0], seps[1], 2], stop: StopAnswer::None, connect_expiry: false, hold_stop: seps[0] == 2, connack_expiry: None });
                         }
                     }
                 }
@@ -371,8 +383,9 @@ fn case_strategy(role: Role) -> BoxedStrategy<Case> {
         prop_oneof![3 => Just(StopAnswer::None), 1 => Just(StopAnswer::Own(0x89)), 1 => Just(StopAnswer::Fail)],
         any::<bool>(),
         any::<bool>(),
+        prop::option::weighted(0.3, prop::sample::select(vec![0u32, 30])),
     )
-        .prop_map(move |(inits, seps, stop, connect_expiry, hold_stop)| Case { role, inits, seps, stop, connect_expiry, hold_stop })
+        .prop_map(move |(inits, seps, stop, connect_expiry, hold_stop, ce)| Case { role, inits, seps, stop, connect_expiry, hold_stop, connack_expiry: if role == Role::V5Server { ce } else { None } })
         .boxed()
 }
 
@@ -397,7 +410,7 @@ pub fn run(ctx: &Ctx, started: Instant) -> i32 {
         rule: format!(
             "enumerated core of {total} cases: every single initiator and every ordered pair (thorough: triple) with repetition of close initiators {{application close / close_with_reason / close_with_no_reason / force_close; protocol handler answering PINGREQ or SUBSCRIBE with \
              disconnect_with; peer violations with dedicated codes (unknown topic alias 0x94, QoS above maximum 0x9B, RETAIN unavailable 0x9A, subscription identifier unavailable 0xA1, Receive Maximum exceeded 0x93, frame above the maximum 0x95); malformed bytes; unsolicited PUBACK; \
-             publish handler error; protocol handler error; peer DISCONNECT without / with zero / with non-zero session expiry, or with its protocol handler parked while the later initiators act}} x separators {{none, yields, settle}} x control service answering Stop with nothing / its own DISCONNECT / an error, at once or held open while the later initiators act, v5 server and v5 client; random mixes of 2..5 initiators. \
+             publish handler error; protocol handler error; peer DISCONNECT without / with zero / with non-zero session expiry (against CONNECT expiry 0 / 60 and a CONNACK in which the handshake wrote expiry 0 / 30), or with its protocol handler parked while the later initiators act}} x separators {{none, yields, settle}} x control service answering Stop with nothing / its own DISCONNECT / an error, at once or held open while the later initiators act, v5 server and v5 client; random mixes of 2..5 initiators. \
              Oracle on the reference-decoded output: at most one DISCONNECT, nothing after it, none after the peer's DISCONNECT was handled (except 0x82 for a non-zero session expiry against CONNECT expiry 0), an error cause that comes first and is not overtaken never yields reason 0x00 and \
              carries its dedicated code, a lone error cause is reported at all. Non-trivial = at least 2 initiators or a dedicated-code cause; distinct = the case"
         ),
